@@ -237,7 +237,8 @@ structure Config where
   provs : List Prov
   sshCA : Bool           -- the authority has an SSH user or host signing key
   disableIat : Bool      -- AuthorityConfig.DisableIssuedAtCheck
-  startTime : Int        -- Authority.startTime (truncated to the second), seconds
+  startTime : Int        -- the instant the authority was constructed, truncated to the second (seconds); measured
+                         -- by the harness around `authority.New` / `NewEmbedded` / restart, not read back from the authority
   sshKeys : List SshKey := []  -- every SSH public key the authority knows, own and configured
   deriving Repr
 
